@@ -18,10 +18,10 @@ func allBatches(kind string, repo, diamond int, extra ...listT) []listT {
 	return append(out, extra...)
 }
 
-func runPinned(t *testing.T, name string, c caseT) error {
+func runPinned(t *testing.T, name string, c caseT, exclude bool) error {
 	t.Helper()
 	hx.Journal(map[string]interface{}{"pinned": name, "case": c})
-	err, hung, panicked := hx.Guard(120*time.Second, func() error { return runCase(c, false, false) })
+	err, hung, panicked := hx.Guard(120*time.Second, func() error { return runCase(c, false, exclude) })
 	if hung {
 		t.Fatalf("%s: HANG", name)
 	}
@@ -33,7 +33,8 @@ func runPinned(t *testing.T, name string, c caseT) error {
 
 func mustPass(t *testing.T, name string, c caseT) {
 	t.Helper()
-	if err := runPinned(t, name, c); err != nil {
+	// like the generator, regression cases step aside from the input class of the finding while it is listed
+	if err := runPinned(t, name, c, true); err != nil {
 		t.Fatalf("%s: %v", name, err)
 	}
 }
@@ -131,7 +132,7 @@ func TestRegressRealCommit(t *testing.T) {
 
 func known(t *testing.T, name string, c caseT) {
 	t.Helper()
-	err := runPinned(t, name, c)
+	err := runPinned(t, name, c, false)
 	if err == nil {
 		return
 	}
@@ -172,13 +173,18 @@ func TestKnownEmptyFilteredPageAPIOnly(t *testing.T) {
 	known(t, "API only, BatchSize 2", c)
 }
 
-// public API only, NO option (page size 1024): a diamond with 1100 created splits hides every later diamond
+// public API only, NO option (page size 1024): a diamond with 2100 created splits (one key each: the second
+// page of 1024 keys holds no diamond descriptor) hides every later diamond
 func TestKnownEmptyFilteredPageDefaults(t *testing.T) {
+	if !hx.Thorough() {
+		// 2100 CreateSplit calls cost 5-12 s (each builds three default zap loggers inside datamon)
+		t.Skip("thorough tier only")
+	}
 	d := diamondT{Sec: 0, Tag: 1, Start: 0, How: "api"}
-	for i := 0; i < 1100; i++ {
+	for i := 0; i < 2100; i++ {
 		d.Splits = append(d.Splits, splitT{ID: fmt.Sprintf("pod-%d", i), Start: i % 7, How: "api"})
 	}
 	c := caseT{Focus: []repoT{{Name: "r", Diamonds: []diamondT{d, {Sec: 1, Tag: 1, Start: 1, How: "api"}, {Sec: 2, Tag: 1, Start: 2, Final: "canceled", How: "api"}}}},
 		Lists: []listT{{Kind: "diamonds", NoOpts: true}, {Kind: "diamonds", NoOpts: true, Apply: true}, {Kind: "splits", NoOpts: true}}}
-	known(t, "API only, default options, 1100 splits", c)
+	known(t, "API only, default options, 2100 splits", c)
 }
